@@ -20,5 +20,50 @@ find "$NEW" -name '*.rs' ! -path "$NEW/verif/*" -print0 | xargs -0 sed -i -E \
   -e 's/\bstd::env\b/crate::verif::env/g' \
   -e 's/\buse std::\{env\};/use crate::verif::{env};/g' \
   -e 's/(^|[^:A-Za-z0-9_])thread_local!/\1crate::verif::thread_local!/g'
+# grouped imports: `use std::{fs::File, sync::Mutex, thread};` (also nested and over several lines) - the
+# sync / thread / env items move into a `use crate::verif::{..};` on the same lines
+python3 - "$NEW" <<'PY'
+import os, re, sys
+root = sys.argv[1]
+pat = re.compile(r'(?m)^(\s*)((?:pub(?:\([a-z ]+\))?\s+)?use\s+(?:::)?std::)\{')
+def split_top(body):
+    items, depth, cur = [], 0, ''
+    for ch in body:
+        if ch == '{': depth += 1
+        if ch == '}': depth -= 1
+        if ch == ',' and depth == 0:
+            items.append(cur); cur = ''
+        else:
+            cur += ch
+    if cur.strip(): items.append(cur)
+    return items
+for d, _, fs in os.walk(root):
+    if os.path.join(root, 'verif') == d: continue
+    for f in fs:
+        if not f.endswith('.rs'): continue
+        p = os.path.join(d, f); s = open(p, encoding='utf-8', errors='surrogateescape').read(); out = ''; pos = 0; changed = False
+        for m in pat.finditer(s):
+            if m.start() < pos: continue
+            i = m.end(); depth = 1
+            while i < len(s) and depth:
+                depth += {'{': 1, '}': -1}.get(s[i], 0); i += 1
+            j = s.find(';', i)
+            if depth or j < 0 or s[i:j].strip(): continue
+            body = s[m.end():i - 1]
+            items = split_top(body)
+            moved = [x for x in items if re.match(r'\s*(sync|thread|env)\b', x)]
+            if not moved: continue
+            rest = [x for x in items if x not in moved]
+            head = m.group(2)
+            prefix = head[:head.index('use')]
+            text = ''
+            if rest: text += head + '{' + ','.join(rest).replace('\n', ' ') + '}; '
+            text += prefix + 'use crate::verif::{' + ','.join(moved).replace('\n', ' ') + '};'
+            text += '\n' * s[m.start():j + 1].count('\n')   # line numbers stay
+            out += s[pos:m.start()] + m.group(1) + text; pos = j + 1; changed = True
+        if changed:
+            open(p, 'w', encoding='utf-8', errors='surrogateescape').write(out + s[pos:])
+PY
+sed -i -E -e 's/\buse std::sync;/use crate::verif::sync;/g' $(find "$NEW" -name '*.rs' ! -path "$NEW/verif/*")
 rsync -rc --delete "$NEW"/ "$DST"/
 rm -rf "$NEW"
